@@ -132,22 +132,28 @@ Section HmacFacts.
     h_session (h_new key) msgs = map (fun chunks => spec key (concat chunks)) msgs.
   Proof. intros Hk Hok. apply hmac_session_rep; try assumption. apply hmac_new_rep. exact Hk. Qed.
 
-  (* the three key classes of RFC 2104, spelled out *)
-  Lemma key0_short key : (length key < B)%nat -> key0 key = key ++ repeat 0 (B - length key).
-  Proof.
-    intros H. unfold hmac_key0, over_zeros. destruct (Nat.ltb_spec B (length key)); [lia|].
-    f_equal. clear -H. revert H. generalize (length key). intros n. revert B.
-    induction n as [|n IH]; intros B H; [cbn; rewrite Nat.sub_0_r; reflexivity|].
-    destruct B as [|b]; [lia|]. cbn [repeat skipn Nat.sub]. apply IH. lia.
-  Qed.
-  Lemma key0_equal key : length key = B -> key0 key = key.
-  Proof.
-    intros H. unfold hmac_key0, over_zeros. destruct (Nat.ltb_spec B (length key)); [lia|].
-    rewrite skipn_all2 by (rewrite repeat_length; lia). apply app_nil_r.
-  Qed.
-  Lemma key0_long key : (B < length key)%nat -> key0 key = over_zeros B (Hf key).
-  Proof. intros H. unfold hmac_key0. destruct (Nat.ltb_spec B (length key)); [reflexivity|lia]. Qed.
 End HmacFacts.
+
+(* the three key classes of RFC 2104, spelled out *)
+Lemma skipn_repeat0 n : forall B, skipn n (repeat 0 B) = repeat 0 (B - n).
+Proof.
+  induction n as [|n IH]; intros B; [cbn; rewrite Nat.sub_0_r; reflexivity|].
+  destruct B as [|b]; [reflexivity|]. cbn [repeat skipn Nat.sub]. apply IH.
+Qed.
+Lemma key0_short (B : nat) (Hf : list N -> list N) key :
+  (length key < B)%nat -> hmac_key0 B Hf key = key ++ repeat 0 (B - length key).
+Proof.
+  intros H. unfold hmac_key0, over_zeros. destruct (Nat.ltb_spec B (length key)); [lia|].
+  rewrite skipn_repeat0. reflexivity.
+Qed.
+Lemma key0_equal (B : nat) (Hf : list N -> list N) key : length key = B -> hmac_key0 B Hf key = key.
+Proof.
+  intros H. unfold hmac_key0, over_zeros. destruct (Nat.ltb_spec B (length key)); [lia|].
+  rewrite skipn_all2 by (rewrite repeat_length; lia). apply app_nil_r.
+Qed.
+Lemma key0_long (B : nat) (Hf : list N -> list N) key :
+  (B < length key)%nat -> hmac_key0 B Hf key = over_zeros B (Hf key).
+Proof. intros H. unfold hmac_key0. destruct (Nat.ltb_spec B (length key)); [reflexivity|lia]. Qed.
 
 (* ---------- instances ---------- *)
 Lemma md5_spec_length m : length (md5_spec m) = 16%nat.
